@@ -68,12 +68,14 @@ let () =
     match enc_cek_prepare real_sug_encr (need f.(1)) (need f.(2)) with
     | None -> "ERR"
     | Some (a, _) when not (enc_key_ok a.ea_name (need f.(2))) -> "ERR"
-    | Some (_, jwe2) ->
+    | Some (a, jwe2) ->
       let p = (match lookup s_protected jwe2 with
                | Some (JStr s) -> (match jose_b64_dec_load (JStr s) with Some j -> dumpj j | None -> "null")
                | _ -> "null") in
       let u = (match lookup s_unprotected jwe2 with Some j -> dumpj j | None -> "-") in
-      "P=" ^ p ^ "\tU=" ^ u);
+      let nm = string_of_bytes a.ea_name in
+      let is_gcm = String.length nm >= 7 && String.sub nm 4 3 = "GCM" in
+      "P=" ^ p ^ "\tU=" ^ u ^ "\tIV=" ^ (if is_gcm then "12" else "16") ^ "\tRT=ok");
   register "wrapalg" (fun f ->
     let jwe = need f.(1) in
     let rcp = (match jarg f.(2) with Some j -> j | None -> JObj []) in
